@@ -229,7 +229,7 @@ def realops_guard():
 
 
 # ------------------------------------------------------------------ lane reductions (Model/VecOps.v)
-VECOPS_EXPECTED_SHA = "9dc6bfecc3f7e72e"
+VECOPS_EXPECTED_SHA = "c64fd09abf471890"
 
 
 def vecops_guard():
@@ -321,6 +321,10 @@ def lane_tie(rng, tier):
                 tasks.append({"kind": "lane", "fn": "batchnorm", "shape": list(sh), "axis": None, "x": [round(rng.uniform(-2, 2), 3) for _ in range(int(np.prod(sh)))],
                               "gamma": [round(rng.uniform(0.5, 2), 3) for _ in range(C)] if gm else None, "beta": [round(rng.uniform(-1, 1), 3) for _ in range(C)] if bt else None,
                               "eps": rng.choice([1e-3, 0.1, 1.0]), "gseed": rng.randrange(10 ** 6)})
+        for sh, axes in (((5,), [0, -1, None]), ((3, 4), [0, 1, -1]), ((2, 3, 2), [0, 1, 2, -2])):
+            for ax in axes:
+                x = [round(rng.choice([-1, 1]) * rng.uniform(0.3, 1.8), 3) for _ in range(int(np.prod(sh)))]
+                tasks.append({"kind": "lane", "fn": "cumprod", "shape": list(sh), "axis": ax, "x": x, "gseed": rng.randrange(10 ** 6)})
         for N, C in ((1, 3), (3, 4), (4, 2)):
             for hinge in (1.0, 0.0, 0.5, 2.5):
                 tasks.append({"kind": "lane", "fn": "multiclass_hinge", "shape": [N, C], "axis": 1, "x": [round(rng.uniform(-2, 2), 3) + 0.00037 * k for k in range(N * C)],
@@ -343,8 +347,8 @@ def lane_tie(rng, tier):
     for t in tasks:
         x = np.array(t["x"]).reshape(t["shape"])
         ax = tuple(t["axis"]) if isinstance(t["axis"], list) else t["axis"]
-        if t["fn"] in ("softmax", "logsoftmax", "batchnorm"):
-            oshape = x.shape
+        if t["fn"] in ("softmax", "logsoftmax", "batchnorm", "cumprod"):
+            oshape = x.shape if not (t["fn"] == "cumprod" and t["axis"] is None) else (x.size,)
         elif t["fn"] == "norm":
             oshape = np.linalg.norm(x, ord=t.get("ord"), axis=ax, keepdims=t.get("keepdims", False)).shape
         elif t["fn"] in ("softmax_crossentropy", "multiclass_hinge", "margin_ranking_loss"):
@@ -368,6 +372,21 @@ def lane_tie(rng, tier):
         x = np.array(t["x"], dtype=np.float64).reshape(t["shape"])
         nd = x.ndim
         ax = t["axis"]
+        if t["fn"] == "cumprod":
+            axc = t["axis"]
+            X2 = x.reshape(1, -1) if axc is None else np.moveaxis(x, axc, -1).reshape(-1, x.shape[axc])
+            G2 = np.array(r["grad"]).reshape(x.shape)
+            G2 = G2.reshape(1, -1) if axc is None else np.moveaxis(G2, axc, -1).reshape(X2.shape)
+            gin = np.array(t["g"], dtype=np.float64)
+            gin = gin.reshape(1, -1) if axc is None else np.moveaxis(gin.reshape(x.shape), axc, -1).reshape(X2.shape)
+            for k in range(X2.shape[0]):
+                n_lanes += 1
+                P = np.cumprod(X2[k])
+                want = np.array([(gin[k][i:] * P[i:]).sum() / X2[k][i] for i in range(len(P))])
+                if not same(want, G2[k], 1e-10, 1e-12)[0]:
+                    bad.append({"kind": "cumprod (axis=%s): the gradient differs from Model/VecOps.v's cumprod_bwd on lane %s" % (axc, X2[k].tolist()), "task": t})
+                    break
+            continue
         if t["fn"] in ("multiclass_hinge", "focal_loss", "margin_ranking_loss"):
             G = np.array(r["grad"]).reshape(x.shape)
             g = np.array(t["g"], dtype=np.float64)
@@ -618,6 +637,10 @@ def run(rep, work, tier, seed, props, replay=None):
             keep.append(i)
     kb, kr = [builders[i] for i in keep], [results[i] for i in keep]
     bad3 = model_failing(kb, kr, work, "c02")
+    outside = list(getattr(model_failing, "outside_hypothesis", []))
+    if outside:
+        rep.violation({"kind": "a generated single-operation program does not satisfy the hypothesis hist_ok of the history-level theorems (registry theorem would not cover it)",
+                       "broken": "correspondence C02: hypotheses of the exact-registry theorems", "stmts": kb[outside[0]].stmts, "n": len(outside)}, no_input=True)
     fn_hist = {}
     for b in kb:
         for s in b.stmts:
@@ -686,7 +709,7 @@ def run(rep, work, tier, seed, props, replay=None):
         "formula_search_points": n_fs, "formula_search_failures": len(bad_fs),
         "realops_points": n_real, "realops_disagreements": len(bad2),
         "lane_reduction_lanes": n_lanes, "lane_reduction_disagreements": len(bad2b),
-        "exact_programs": len(kb), "exact_discarded": len(builders) - len(kb), "exact_disagreements": len(bad3), "exact_ops": fn_hist,
+        "exact_programs": len(kb), "exact_programs_meeting_theorem_hypotheses": len(kb) - len(outside), "exact_discarded": len(builders) - len(kb), "exact_disagreements": len(bad3), "exact_ops": fn_hist,
         "catalogue_entries_run": cat_n, "catalogue_families": cat_fam, "catalogue_disagreements": len(cat_bad), "catalogue_worst_rel_err_below_threshold": worst,
     })
     rep.assumptions += [
